@@ -44,3 +44,60 @@ Definition spec_C03_locate (ws : bool) (f : list line) (h : hunk) (off F : Z) (l
             admissibleb ws f b lo (Z.to_nat sp) 0
          then Nat.eqb pos (Z.to_nat sp) && Nat.eqb fz 0 else true)
     end.
+
+(* ---- C02 / C03 / C04 on one apply_patch call (no -D, no reversed-patch guess: run with -f) ---- *)
+From PatchV Require Import Spec_Apply.
+
+(* a verdict as the program prints it: "Hunk #k succeeded at L [with fuzz fz] [(offset O lines)]" / "FAILED" *)
+Inductive overdict := OApplied (L : Z) (fz : nat) (Oc : Z) | ORejected.
+
+Record walk_result := mkWR { w_c02 : bool; w_c03 : bool; w_offsets : bool; w_verdicts : list verdict }.
+
+Fixpoint spec_walk (ws : bool) (F : Z) (f : list line) (hs : list hunk) (ovs : list overdict)
+         (cursor : nat) (offerr o2n : Z) : option walk_result :=
+  match hs, ovs with
+  | [], [] => Some (mkWR true true true [])
+  | h :: hs', ov :: ovs' =>
+      match ov with
+      | ORejected =>
+          match spec_walk ws F f hs' ovs' cursor offerr o2n with
+          | None => None
+          | Some r => Some (mkWR (w_c02 r && spec_C02_locate ws f h offerr F cursor None)
+                                 (w_c03 r && spec_C03_locate ws f h offerr F cursor None)
+                                 (w_offsets r) (VRejected :: w_verdicts r))
+          end
+      | OApplied L fz Oc =>
+          let posz := (L - 1 - o2n)%Z in
+          if Z.ltb posz 0 then None
+          else
+            let pos := Z.to_nat posz in
+            let off := ssub posz (stated_pos h offerr) in
+            let obs := Some (pos, fz, off) in
+            let offerr' := sadd offerr off in
+            match spec_walk ws F f hs' ovs' (pos + length (old_side (body h))) offerr'
+                            (o2n + (rcount (newr h) - rcount (oldr h)))%Z with
+            | None => None
+            | Some r => Some (mkWR (w_c02 r && spec_C02_locate ws f h offerr F cursor obs)
+                                   (w_c03 r && spec_C03_locate ws f h offerr F cursor obs)
+                                   (w_offsets r && Z.eqb Oc offerr')
+                                   (VApplied pos fz :: w_verdicts r))
+            end
+      end
+  | _, _ => None
+  end.
+
+Record apply_judgement := mkAJ { j_c02 : bool; j_c03 : bool; j_c04 : bool }.
+
+Definition spec_apply (ws : bool) (F : Z) (mode : nlmode) (f : list line) (hs : list hunk) (ovs : list overdict)
+           (out_bytes : list N) (failed : nat) (rej_bytes : list N) : apply_judgement :=
+  match spec_walk ws F f hs ovs 0 0 0 with
+  | None => mkAJ false false false
+  | Some r =>
+      let same := match replay f 0 hs (w_verdicts r) with
+                  | Some o => str_eqb (lines_bytes mode o) out_bytes
+                  | None => false
+                  end in
+      mkAJ (w_c02 r && same) (w_c03 r && w_offsets r)
+           (same && Nat.eqb failed (count_rejected (w_verdicts r)) &&
+            Bool.eqb (is_nil rej_bytes) (Nat.eqb failed 0))
+  end.
